@@ -84,22 +84,32 @@ def _alarm(signum, frame):
     raise _Timeout()
 
 
+_TIMEOUTS = Counter()
+MAX_TIMEOUTS = 5
+
+
 def call(f, *a, limit=0.0):
-    """-> (value, exc): exc = "" (returned a value), "None" (returned None) or the exception class name."""
+    """-> (value, exc): exc = "" (returned a value), "None" (returned None) or the exception class name.
+    limit: CPU seconds (a faulty remainder makes the Euclidean loops of the implementation run forever); after MAX_TIMEOUTS
+    timeouts of the same function the remaining calls are skipped ("Skipped": no event is recorded)."""
+    tag = getattr(f, "__qualname__", "?")
     if limit:
-        old = signal.signal(signal.SIGALRM, _alarm)
-        signal.setitimer(signal.ITIMER_REAL, limit)
+        if _TIMEOUTS[tag] >= MAX_TIMEOUTS:
+            return None, "Skipped"
+        old = signal.signal(signal.SIGVTALRM, _alarm)
+        signal.setitimer(signal.ITIMER_VIRTUAL, limit)
     try:
         v = f(*a)
         return (v, "None") if v is None else (v, "")
     except _Timeout:
+        _TIMEOUTS[tag] += 1
         return None, "Timeout"
     except Exception as e:  # recorded; the spec decides whether raising is acceptable
         return None, type(e).__name__
     finally:
         if limit:
-            signal.setitimer(signal.ITIMER_REAL, 0)
-            signal.signal(signal.SIGALRM, old)
+            signal.setitimer(signal.ITIMER_VIRTUAL, 0)
+            signal.signal(signal.SIGVTALRM, old)
 
 
 LIMIT = 1 << 30
@@ -414,7 +424,7 @@ def nonfunctional_events(rng, tier, stats):
     for ix, x in enumerate(S):
         for iy, y in enumerate(S):
             if (y.a or y.b) and (tier != "quick" or (ix + iy) % 2 == 0):
-                v, e = call(lambda: x % y, limit=2)
+                v, e = call(lambda: x % y, limit=1)
                 evs.append(ev("s2.mod", x=s2(x), y=s2(y), exc=e, out=s2(v) if e == "" else []))
         v, e = call(x.sqrt)
         evs.append(ev("s2.sqrt", x=s2(x), n=4, exc=e, out=s2(v) if e == "" else []))
@@ -426,7 +436,7 @@ def nonfunctional_events(rng, tier, stats):
         stats["sqrt_found" if e == "" else "sqrt_none"] += 1
         x, y = rnd_s2(rng, 200), rnd_s2(rng, 40)
         if y.a or y.b:
-            v, e = call(lambda: x % y, limit=2)
+            v, e = call(lambda: x % y, limit=1)
             evs.append(ev("s2.mod", x=s2(x), y=s2(y), exc=e, out=s2(v) if e == "" else []))
     bo = range(-1, 2)
     O = [ZOmega(a, b, c, d) for a in bo for b in bo for c in bo for d in bo]
@@ -434,36 +444,36 @@ def nonfunctional_events(rng, tier, stats):
     for ix, x in enumerate(O):
         for iy, y in enumerate(O):
             if any(om(y)) and (tier != "quick" or (ix + iy) % 3 == 0):
-                v, e = call(lambda: x % y, limit=2)
+                v, e = call(lambda: x % y, limit=1)
                 evs.append(ev("om.mod", x=om(x), y=om(y), exc=e, out=om(v) if e == "" else []))
     for x in O2:
         if any(om(x)):
-            v, e = call(x.normalize, limit=2)
+            v, e = call(x.normalize, limit=1)
             evs.append(ev("om.normalize", x=om(x), exc=e, out=om(v[0]) if e == "" else [], out2=[int(v[1])] if e == "" else []))
         v, e = call(x.to_sqrt_two)
         evs.append(ev("om.tosqrt2", x=om(x), exc=e, out=s2(v) if e == "" else []))
     for _ in range(300 if tier == "quick" else 3000):
         x, y = rnd_om(rng, 16), rnd_om(rng, 6)
         if any(om(y)):
-            v, e = call(lambda: x % y, limit=2)
+            v, e = call(lambda: x % y, limit=1)
             evs.append(ev("om.mod", x=om(x), y=om(y), exc=e, out=om(v) if e == "" else []))
         k = rng.randint(0, 9)
         x = rnd_om(rng, 30)
         for _ in range(k):
             x = ZOmega(x.b - x.d, x.a + x.c, x.b + x.d, x.c - x.a)      # times sqrt2 (input construction only)
         if any(om(x)):
-            v, e = call(x.normalize, limit=2)
+            v, e = call(x.normalize, limit=1)
             evs.append(ev("om.normalize", x=om(x), exc=e, out=om(v[0]) if e == "" else [], out2=[int(v[1])] if e == "" else []))
         a = rnd_s2(rng, 500)
         v, e = call(a.to_omega().to_sqrt_two)
         evs.append(ev("om.tosqrt2", x=om(a.to_omega()), exc=e, out=s2(v) if e == "" else []))
         x, y = rnd_s2(rng, 12), rnd_s2(rng, 12)
         if (x.a or x.b) and (y.a or y.b):
-            v, e = call(ns._gcd, x, y, limit=2)
+            v, e = call(ns._gcd, x, y, limit=1)
             evs.append(ev("nt.gcd.s2", x=s2(x), y=s2(y), exc=e, out=s2(v) if e == "" else []))
         x, y = rnd_om(rng, 5), rnd_om(rng, 5)
         if any(om(x)) and any(om(y)):
-            v, e = call(ns._gcd, x, y, limit=2)
+            v, e = call(ns._gcd, x, y, limit=1)
             evs.append(ev("nt.gcd.om", x=om(x), y=om(y), exc=e, out=om(v) if e == "" else []))
     return evs
 
@@ -579,24 +589,24 @@ def number_theory_events(rng, tier, stats):
     small = _small_primes(90 if tier == "quick" else 400)
     for p in small:
         for a in list(range(p)) + [-1, -2]:
-            v, e = call(ns._sqrt_modulo_p, a, p, limit=2)
+            v, e = call(ns._sqrt_modulo_p, a, p, limit=1)
             evs.append(ev("nt.sqrtmod", x=[a, p], exc=e, out=[int(v)] if e == "" else []))
             stats["sqrtmod_root" if e == "" else "sqrtmod_none"] += 1
     larger = _small_primes(1 << 15)
     for _ in range(200 if tier == "quick" else 2000):
         p = rng.choice(larger)
         for a in (-1, -2, 2, rng.randrange(p), pow(rng.randrange(1, p), 2, p)):
-            v, e = call(ns._sqrt_modulo_p, a, p, limit=2)
+            v, e = call(ns._sqrt_modulo_p, a, p, limit=1)
             evs.append(ev("nt.sqrtmod", x=[a, p], exc=e, out=[int(v)] if e == "" else []))
             stats["sqrtmod_root" if e == "" else "sqrtmod_none"] += 1
     # norm equations t^+ t = xi
     def dioph(xi, wit):
-        v, e = call(ns._solve_diophantine, ZSqrtTwo(xi[0], xi[1]), limit=10)
+        v, e = call(ns._solve_diophantine, ZSqrtTwo(xi[0], xi[1]), limit=3)
         if e == "" and not isinstance(v, ZOmega):
             e = "NotZOmega"
         evs.append(ev("nt.dioph", x=xi, z=wit, exc=e, out=om(v) if e == "" else []))
         stats["dioph_solved" if e == "" else "dioph_" + e] += 1
-        if wit:
+        if wit and e != "Skipped":
             stats["dioph_solvable"] += 1
             stats["dioph_solvable_solved"] += 1 if e == "" else 0
     amax = 32 if tier == "quick" else 120
@@ -614,10 +624,10 @@ def number_theory_events(rng, tier, stats):
         dioph([a, b], [])
     # integer factorisation and the splitting of rational primes in Z[sqrt2] (mechanism: evidence only)
     for n in list(range(2, 300)) + [rng.randrange(2, 1 << 20) for _ in range(100 if tier == "quick" else 1000)]:
-        v, e = call(lambda: ns._prime_factorize(n, 1000, False), limit=10)
+        v, e = call(lambda: ns._prime_factorize(n, 1000, False), limit=3)
         evs.append(ev("nt.factor", x=[n, _isqrt_bound(n)], exc=e, out=[int(f) for f in v] if e == "" else []))
     for p in [2] + _small_primes(300 if tier == "quick" else 2000):
-        v, e = call(ns._factorize_prime_zsqrt_two, p, limit=5)
+        v, e = call(ns._factorize_prime_zsqrt_two, p, limit=1)
         evs.append(ev("nt.facs2", x=[p], exc=e, out=[c for f in v for c in s2(f)] if e == "" else []))
     return evs
 
@@ -691,6 +701,7 @@ def validate(traces):
 def run(tier, seed):
     rng = random.Random(seed)
     random.seed(seed)                                  # norm_solver._integer_factorize draws from the global generator
+    _TIMEOUTS.clear()
     quick = tier == "quick"
     agg, stats = Agg(), Counter()
     nontriv = set()
@@ -724,6 +735,8 @@ def run(tier, seed):
     events = (ring_events(rng, 120 if quick else 1500, 120 if quick else 1500, stats) + nonfunctional_events(rng, tier, stats)
               + matrix_events(rng, tier, stats) + number_theory_events(rng, tier, stats) + deferred)
     stats["replay_deferred_to_trace"] = len(deferred)
+    stats["calls_skipped_after_timeouts"] = sum(1 for e in events if e["exc"] == "Skipped")
+    events = [e for e in events if e["exc"] != "Skipped"]
     for e in events:
         if e["op"] in ("om.mul", "s2.mul", "dy.matmul", "om.law", "s2.law", "dy.law", "so3.hom", "nt.dioph") and e["exc"] == "":
             nontriv.add((e["op"], e["law"], tuple(e["x"]), tuple(e["y"]), tuple(e["z"])))
@@ -766,11 +779,11 @@ def run(tier, seed):
                         {"event": e, "clause": clause, "info": info})
     # vacuity (only when no ring / number-theory violation explains it: a faulty component starves the calls that depend on it)
     explained = any(not k.startswith(("dy.", "replay:dy.", "so3.", "replay:so3.")) for k in agg.d)
-    if not explained and (stats["dioph_solved"] < 50 or stats["sqrtmod_root"] < 100 or stats["so3_hom"] < 20 or stats["s2_roots_found"] < 20):
-        raise lib.MachineryError(f"vacuous run: {dict(stats)}")
     if not explained and stats["dioph_solvable"] and stats["dioph_solvable_solved"] * 2 < stats["dioph_solvable"]:
         raise lib.MachineryError(f"vacuous run: the solver solved only {stats['dioph_solvable_solved']} of {stats['dioph_solvable']} instances "
                                  "that have a solution by construction (soundness of returned solutions cannot be judged)")
+    if not explained and (stats["dioph_solved"] < 50 or stats["sqrtmod_root"] < 100 or stats["so3_hom"] < 20 or stats["s2_roots_found"] < 20):
+        raise lib.MachineryError(f"vacuous run: {dict(stats)}")
     ops = Counter(e["op"] for e in events)
     sol = next((e for e in events if e["op"] == "nt.dioph" and e["exc"] == "" and e["x"][0] > 500), None)
     samples = [{"op": "ZOmega * ZOmega (replayed)", "x": rows["om"][400]["x"], "y": hdr["om"][50], "expected": rows["om"][400]["mul"][50]},
@@ -789,7 +802,8 @@ def run(tier, seed):
            "model": {"module": "ZRings / ZRingsGen", "invariants": INVARIANTS, "states": g.distinct, "constants": consts,
                      "zsqrt2_elements": n2, "zomega_elements": no, "zomega_pairs": no * (no + 1) // 2 if consts["BP"] == consts["BO"] else no * (2 * consts["BP"] + 1) ** 4,
                      "zomega_triples": (2 * consts["BT"] + 1) ** 8 * sum(math.comb(4, j) * (2 * consts["BT"]) ** j for j in range(consts["SPARSE"] + 1)), "zsqrt2_triples": n2 ** 3, "clifford_t_words": nw, "word_pairs": nw * nw},
-           "replayed_operations": stats["replayed"], "replay_deferred_to_trace": stats["replay_deferred_to_trace"], "trace_events": len(events), "trace_events_by_op": dict(sorted(ops.items())),
+           "replayed_operations": stats["replayed"], "replay_deferred_to_trace": stats["replay_deferred_to_trace"],
+           "timeouts": dict(_TIMEOUTS), "calls_skipped_after_timeouts": stats["calls_skipped_after_timeouts"], "trace_events": len(events), "trace_events_by_op": dict(sorted(ops.items())),
            "trace_states": r.distinct,
            "primality_exhaustive_below": stats["primality_exhaustive_below"], "primality_big_numbers": stats["primality_big_numbers"],
            "primality_big_probable_primes": stats["primality_big_probable_primes"],
